@@ -89,6 +89,24 @@ CHECKS = {
         note='trusted: edit classification per RFC 4253/4419/5656/8731, '
              'refssh KEXINIT parser/negotiator',
         design='3/C03'),
+    'C04': dict(
+        level='exploration',
+        technique='runtime monitoring: generated known_hosts with ground '
+                  'truth by construction + reference trust model, wire tap '
+                  'for "no credentials before the decision", lying '
+                  'reference-peer server',
+        text='For generated trust files (markers, wildcard/negated/CIDR/'
+             'hashed/[host]:port patterns), targets and server credentials '
+             '(keys, host certificates around validity boundaries, wrong '
+             'type/principal/CA, revoked keys/CAs) connect() succeeds '
+             'exactly when the reference model accepts; on refusal the error '
+             'is a host-key/kex error and the tap shows no NEWKEYS / service '
+             '/ auth request from the client; servers that sign with another '
+             'key, another hash or present altered certificates are '
+             'refused.',
+        note='trusted: the 60-line reference trust model; fixed clock '
+             'substituted for asyncssh.public_key.time',
+        design='3/C04'),
     'C05': dict(
         level='exploration',
         technique='runtime monitoring: scripted hostile client histories '
